@@ -171,6 +171,7 @@ def _build(case):
     if case.get('use_length'):
         c.length = pd.Series({c.ln[j]: float(l[3]) for j, l in enumerate(c.links) if l[2] == 'P'}, dtype=float)
     c.cols = ['link', 'node'] if case.get('cols', 'ln') == 'ln' else ['node', 'link']
+    c.row_order = int(case.get('row_order', 0) or 0)
     return c
 
 
@@ -357,6 +358,28 @@ def _one_layer(c, rows, tags):
     bad = _check_attrs(c, first, roots, attr, strict=True)
     if bad:
         return bad, separating
+    ro = getattr(c, 'row_order', 0)
+    if ro and len(first) >= 2:
+        # the same layer with its rows re-ordered (valve numbers = index labels stay attached to their valves, as after
+        # layer.sort_values(...) or layer.sample(frac=1)): every valve must get the same attributes under its own number
+        n_ = len(first)
+        perm = list(range(n_))[::-1] if ro < 0 else [(k + ro) % n_ for k in range(n_)]
+        if perm != list(range(n_)):
+            tags.add('layer_rows_reordered')
+            pf = _frame(c, first).iloc[perm]
+            try:
+                ns2, ls2, sizes2 = valve_segments(c.wn.to_graph(), pf)
+                bad2, roots2 = _check_partition(c, first, ns2, ls2, sizes2, set(first))
+                if bad2:
+                    return ('reordered_layer/' + bad2[0], bad2[1]), separating
+                attr2 = valve_segment_attributes(pf, ns2, ls2, c.demand, c.length)
+                attr2 = attr2.sort_index()
+            except Exception as ex:
+                return (exc_bucket(ex, 'reordered_layer_raises'), '%r for the layer %r with rows re-ordered as %r'
+                        % (ex, _rows_txt(c, first), perm)), separating
+            bad = _check_attrs(c, first, roots2, attr2, strict=True)
+            if bad:
+                return ('reordered_layer/' + bad[0], bad[1] + ' | rows of the layer in order %r (labels kept)' % (perm,)), separating
     if untouched:
         return None, separating
     # documented work flow: the caller's own frame goes on to valve_segment_attributes
@@ -488,6 +511,7 @@ def strategy(draw, tier='quick'):
                 rows.append(rows[draw(st.integers(0, len(rows) - 1))])
             rows = draw(st.permutations(rows))
         case['valves'] = [list(r) for r in rows]
+        case['row_order'] = draw(st.sampled_from([0, 0, 0, 1, 2, -1]))
     return case
 
 
